@@ -193,6 +193,12 @@ def reg_accessor_accepts(ctx, accessor, regname):
         return None, "no SupportedRegister::%s" % regname
     O = ctx.oracle
 
+    from . import C07
+    try:
+        c07 = C07.make_intercept(ctx, {"r2q": {}, "high": set(C07.HIGH)})
+    except Exception:  # noqa
+        c07 = None
+
     def icpt(I, path, frame, t, name, args):
         # iced Register predicates evaluated from the oracle register table
         if name.startswith("iced_x86::Register::is_") and args:
@@ -206,6 +212,9 @@ def reg_accessor_accepts(ctx, accessor, regname):
         # register-file lookups: key presence is C07.tables' obligation, assumed here
         if "HashMap" in name and name.endswith("::get"):
             return [(A.SOME(("ret", "HashMap::get", tuple(I.norm_arg(path, a) for a in args[1:]), 0)), path)]
+        # membership tests against the register module's own tables (a width check spelled as a table lookup)
+        if c07 is not None and (name.rsplit("::", 1)[1] in ("contains", "contains_key", "deref", "as_slice") or " as std::ops::Deref>::deref" in name):
+            return c07(I, path, frame, t, name, args)
         return None
     I = A.Interp(facts, intercept=icpt)
     body = facts.bodies[accessor]
